@@ -315,6 +315,11 @@ class Rig3(c11.Rig):
         bot.full(plugins=('Owner', 'Misc', 'User', 'Admin', 'Config', 'Channel', 'Utilities', 'VtFaulty'),
                  plugin_dirs=[os.path.join(VERIF, 'harness', 'plugins')])
         c11.Rig.__init__(self)
+        # production formats every log record (Logger._log runs utils.str.format on msg/args whatever
+        # the handler levels): let the real path run — records go to the scratch log file at INFO
+        import logging
+        logging.disable(logging.NOTSET)
+        self.conf.supybot.log.level.setValue('INFO')
         from VtFaulty.plugin import ctl
         self.ctl = ctl
         self.socks = []
@@ -379,6 +384,11 @@ def pongs_of(data):
 
 NUMS = ['001', '002', '003', '004', '005', '353', '352', '354', '367', '324', '329', '332', '333', '366', '433', '437', '900', '903', '904', '908', '670', '691', '376', '422', '315', '311', '318', '341', '730']
 CMDS = ['MODE', 'KICK', 'CAP', 'AUTHENTICATE', 'BATCH', 'JOIN', 'PART', 'QUIT', 'NICK', 'TOPIC', 'INVITE', 'ACCOUNT', 'CHGHOST', 'AWAY', 'TAGMSG', 'NOTICE', 'PRIVMSG', 'PONG', 'WALLOPS', 'FAIL', 'WARN', 'NOTE', 'SETNAME', 'ERROR']
+FMT = ['%s', '%d', '%(x)s', '%%', '%r', '100%sure', '%n', '%*d', '%', '%q', '%L', '%i', '{}', '{0}', '%(', '50%']
+TIMES = ['0001-01-01T00:00:00.000Z', '9999-12-31T23:59:59.999Z', '0001-01-01T00:00:00.000+23:59', '9999-12-31T23:59:59.999-23:59', '0000-01-01T00:00:00.000Z',
+         '2020-02-30T00:00:00.000Z', '2020-01-01T24:00:00.000Z', '2020-12-31T23:59:60.999Z', '2020-01-01T00:00:00.1234567Z', '2020-01-01T00:00:00.000+00:00',
+         '2020-01-01T00:00:00.000-00:00', '2020-01-01T00:00:00.000+24:00', '1969-12-31T23:59:59.999Z', '1-1-1T1:1:1.1Z', '99999-01-01T00:00:00.000Z',
+         '2020-13-01T00:00:00.000Z', '2020-01-01T00:00:00.' + '9' * 40 + 'Z', '2011-10-19T16:40:51.620Z', '%s', '100%sure', '']
 WORDS = ['test', '#c', '#c,#d', '*', 'LS', 'ACK', 'NAK', 'NEW', 'DEL', 'LIST', 'REQ', 'sasl', 'sasl=PLAIN,EXTERNAL', 'sts=port=x', 'sts=duration=1', 'sts',
          'multi-prefix', 'labeled-response', 'batch', 'echo-message', '+', '+o', '-o+v', '+b', '+l', '+k', '+ovbeIqahlk', 'nick', 'n!u@h', '@nick', '+nick',
          '=', '@', ':', '', '0', '-1', '99999999999999999999', 'é', '中', '\x01ACTION x\x01', '\x01', '+batchid', '-batchid', 'netsplit', 'chathistory', 'a' * 600,
@@ -398,13 +408,18 @@ TARGETED = ['ERROR :Closing link: (flood)', 'ERROR :Trying to reconnect too fast
 def gen_hostile_line(r):
     k = r.randint(0, 14)
     pfx = r.choice(['', ':srv ', ':n!u@h ', ':test!u@h ', ':test ', ': ', ':\x00 ', ':n!u@h!x '])
-    tag = r.choice(['', '', '', '@time=bad ', '@time=2011-10-19T16:40:51.620Z ', '@batch=x ', '@label=q ', '@a;b=c\\:d;+e ', '@ ', '@time '])
+    words = WORDS + FMT + FMT
+    tag = r.choice(['', '', '', '@time=bad ', '@time=2011-10-19T16:40:51.620Z ', '@batch=x ', '@label=q ', '@a;b=c\\:d;+e ', '@ ', '@time ',
+                    '@time=' + r.choice(TIMES) + ' ', '@time=' + r.choice(TIMES) + ' ', '@' + r.choice(FMT) + '=' + r.choice(FMT) + ' ', '@k=' + r.choice(FMT) + ';time=' + r.choice(TIMES) + ' '])
+    if r.random() < 0.12:
+        pfx = ':' + r.choice(FMT) + r.choice(['', '!u@h', '!%s@%d']) + ' '
     if k < 4:
         cmd = r.choice(NUMS)
-        args = [r.choice(WORDS) for _ in range(r.choice([0, 0, 1, 1, 2, 3, 4, 6]))]
+        args = [r.choice(words) for _ in range(r.choice([0, 0, 1, 1, 2, 3, 4, 6]))]
     elif k < 8:
         cmd = r.choice(CMDS)
-        args = [r.choice(WORDS) for _ in range(r.choice([0, 0, 1, 2, 2, 3, 4]))]
+        args = [r.choice(words) for _ in range(r.choice([0, 0, 1, 2, 2, 3, 4]))]
+        if r.random() < 0.1: cmd = r.choice(FMT)
     elif k < 9:
         return (tag + pfx + 'PRIVMSG test :' + r.choice(USER_CMDS)).encode('utf-8', 'surrogatepass')
     elif k < 10:
@@ -412,6 +427,10 @@ def gen_hostile_line(r):
     elif k < 11:
         if r.random() < 0.4:
             return (':srv 005 test ' + ' '.join(r.choice(ISUPPORT) for _ in range(r.randint(1, 4))) + r.choice([' :are supported by this server', '', ' :'])).encode()
+        if r.random() < 0.3:
+            # malformed AND carrying format directives / boundary time tags
+            return r.choice(['@time=' + r.choice(TIMES + FMT) + ' :srv NOTICE * :hello', '@' + r.choice(FMT), ':' + r.choice(FMT), '@time=' + r.choice(FMT),
+                             '@tag=' + r.choice(FMT) + ' :' + r.choice(FMT), '@time=' + r.choice(TIMES) + ' :' + r.choice(FMT)]).encode()
         return r.choice(c11.HOSTILE_LINES + TARGETED).encode()
     elif k < 12:
         l = (tag + pfx + r.choice(CMDS + NUMS) + ' ' + ' '.join(r.choice(WORDS) for _ in range(r.randint(0, 3)))).encode()
@@ -538,9 +557,10 @@ def fill_l3(cases, mlines, spans, pre):
         c.model = model
 
 def time_values(mlines):
-    """time tag values the model must judge: ask the real strptime"""
-    good = ['2011-10-19T16:40:51.620Z']
-    return ['d\ttimeset\t' + wire.enc_list(good)]
+    """the strptime parameter of the model: which of the time-tag values the generator draws does the
+    real strptime accept"""
+    good = [v for v in TIMES + FMT + ['2011-10-19T16:40:51.620Z', 'bad'] if c11.time_ok(v)]
+    return ['d\ttimeset\t' + wire.enc_list(sorted(set(good)))]
 
 # ---------------------------------------------------------------- run
 def explore(rig, stream, n1, n2, n3):
